@@ -237,6 +237,12 @@ def program_level(res, harness, tier, rng):
         "plain": ('Die %sFunktion Pos mit dem Parameter i vom Typ Zahl, gibt eine Zahl zurück, macht:\n'
                   '\tGib i zurück.\nUnd kann so benutzt werden:\n\t"die Position <i>"\n\n', "Gib l an der Stelle (die Position 1) zurück."),
     }
+    # a helper whose pattern extends / is a prefix of a pattern the instantiating module already holds (through the import)
+    DOP = ('Die %sFunktion Doppel mit dem Parameter x vom Typ Zahl, gibt eine Zahl zurück, macht:\n\tGib x mal 2 zurück.\nUnd kann so benutzt werden:\n\t"das Doppelte von <x>"\n\n')
+    DPL = ('Die %sFunktion DoppelPlus mit den Parametern x und y vom Typ Zahl und Zahl, gibt eine Zahl zurück, macht:\n\tGib x mal 2 plus y zurück.\n'
+           'Und kann so benutzt werden:\n\t"das Doppelte von <x> erhöht um <y>"\n\n')
+    helpers["extends-imported"] = ((DOP % "öffentliche ") + DPL, "Gib l an der Stelle (das Doppelte von 1 erhöht um 0) zurück.")
+    helpers["prefix-of-imported"] = ((DPL % "öffentliche ").replace("%", "%%") + DOP, "Gib l an der Stelle (das Doppelte von 1) zurück.")
     for hk, (hsrc, body) in helpers.items():
         for vis in ("", "öffentliche "):
             for where in ("before", "after"):
